@@ -100,9 +100,12 @@ _log_format_variables = {
     'asctime': 'atime',
     'msecs': 1.1,
     'relativeCreated': 1.1,
-    'thread': 1,
+    # thread identifiers are address-sized and process ids go up to 2**22:
+    # small samples would let a format such as '%(thread)c' pass this
+    # check and then fail on every real record
+    'thread': 2 ** 47,
     'message': 'amessage',
-    'process': 1,
+    'process': 2 ** 22,
     'funcName': 'fname',
 }
 
